@@ -145,6 +145,7 @@ func rulesC03(c *Ctx) {
 	c03Round4(c)
 	pendingFallbackRule(c, "C03.sibling")
 	writeLogModeRule(c, "C03.mutate")
+	remoteNodePresentRule(c, "C03.evict")
 	childNodeReadRule(c, "C03.evict")
 
 	// ---- (b) transaction-context discipline
